@@ -16,8 +16,9 @@ META = {
     'bounds': {
         'quick': 'the spelling -> canonical spelling pairs harvested (by ast, on every run) from the repository\'s own '
                  'test_groups.py, each under every random-order spelling of the input (random() symbolic, inputs <= 8 heavy '
-                 'atoms in quick); explicify / implicify / canonicalize / neutralize / fix_resonance / tautomers on 14 seeds '
-                 'under every spelling',
+                 'atoms in quick); explicify / implicify / canonicalize / neutralize / fix_resonance / tautomers on 19 seeds '
+                 'under every spelling; explicify / implicify under every numbering with gaps (distinct solver integers in '
+                 '1..2n+2) of 2 seeds',
         'thorough': 'all harvested pairs, 30 seeds',
     },
     'outside_claim': ['rule interactions beyond the harvested pairs and seeds', 'numbering independence with hetero-arene '
@@ -100,6 +101,34 @@ def h_hydrogens(V, smi):
     V.observe('text', text)
 
 
+def h_hydrogens_numbering(V, smi):
+    """explicify / implicify under every atom numbering with gaps: numbers are distinct solver integers in 1..2n+2"""
+    import chython
+    m = chython.smiles(smi)
+    n = len(m)
+    nums = [V.int(f'num{i}', 1, 2 * n + 2) for i in range(n)]
+    V.distinct(*nums)
+    mapping = {i + 1: int(x) for i, x in enumerate(nums)}
+    m.remap(mapping)
+    info = {'seed': smi, 'numbers': mapping}
+    before = {k: (a.atomic_number, a.isotope, a.charge, a.is_radical, a.implicit_hydrogens) for k, a in m.atoms()}
+    nb = {k: sorted(m._bonds[k]) for k in m._atoms}
+    impl = sum(v[4] or 0 for v in before.values())
+    base = str(m)
+    added = m.explicify_hydrogens()
+    V.prove(added == impl and len(m) == n + impl, 'explicify adds exactly the implicit hydrogens', dict(info, got=len(m)))
+    V.prove(all(k in m._atoms and (m._atoms[k].atomic_number, m._atoms[k].isotope, m._atoms[k].charge, m._atoms[k].is_radical)
+                == v[:4] for k, v in before.items()), 'every atom keeps its number and identity', info)
+    V.prove(all(sorted(x for x in m._bonds[k] if x in before) == nb[k] for k in before), 'and its heavy neighbours', info)
+    V.prove(all(m._atoms[k].atomic_number == 1 and len(m._bonds[k]) == 1 for k in m._atoms if k not in before),
+            'new atoms are hydrogens with one bond each', info)
+    V.prove(all(x in m._atoms for k in m._atoms for x in m._bonds[k]), 'no bond points to a missing atom', info)
+    m.implicify_hydrogens()
+    V.prove(str(m) == base and set(m._atoms) == set(before), 'implicify restores the molecule (mutually inverse)',
+            dict(info, got=str(m), want=base))
+    V.observe('n', added)
+
+
 def normal(m):
     c = m.copy()
     if any(b.order == 4 for *_, b in c.bonds()):
@@ -163,10 +192,15 @@ def h_normalise(V, smi, op):
     V.observe('text', text)
 
 
-HARNESSES = {'group': h_group, 'hydrogens': h_hydrogens, 'normalise': h_normalise}
+HARNESSES = {'group': h_group, 'hydrogens': h_hydrogens, 'normalise': h_normalise,
+             'hydrogens_numbering': h_hydrogens_numbering}
 
 SEEDS_Q = ['CCO', 'CC(=O)O', 'CC(=O)[O-].[Na+]', 'C[N+](C)(C)C', 'NCC(=O)O', 'c1ccncc1', 'c1cc[nH]c1', 'C[N+](=O)[O-]',
-           'OC=CC', 'CC(=O)CC', 'C[C@H](N)C(=O)O', 'OS(=O)(=O)O', 'C[NH3+]']
+           'OC=CC', 'CC(=O)CC', 'C[C@H](N)C(=O)O', 'OS(=O)(=O)O', 'C[NH3+]',
+           # every branch of the charge / radical delocalisation: success, valence roll-back at a quaternary N, the
+           # sulfur-cation guard (acyclic and Kekule thiopyrylium), biradical
+           '[O-]C=CC=[N+](C)C', '[O-]C=C[N+](C)(C)C', '[O-]C=C[S+]=C', 'CN(C)C1=C[S+]=CC=C1', 'C[S+](C)C=C[O-]',
+           '[CH2]C=C[CH2]']
 SEEDS_T = SEEDS_Q + ['Oc1ccccc1', 'O=C1C=CNC=C1', 'CC(O)=N', 'NC(=N)N', 'OP(O)(O)=O', 'C1=CC=CC=C1', 'F/C=C/C(=O)O',
                      'CC(=O)Oc1ccccc1', 'N[C@@H](CS)C(O)=O', 'C[S+](C)[O-]', 'CC#N', 'C=CC=O', 'OC1=NC=CC=C1', '[O-]c1ccccc1',
                      'CC(=O)NC', 'OCC(O)CO']
@@ -191,4 +225,7 @@ def jobs(tier):
         for op in ('canonicalize', 'standardize', 'neutralize', 'fix_resonance', 'tautomers'):
             J.append({'harness': 'normalise', 'params': {'smi': s, 'op': op}, 'budget_s': 600, 'validate_every': 50,
                       'max_failures': 3})
+    for s in (['CCO', 'C[NH3+]', 'CC(=O)O', 'N'] if T else ['CCO', 'C[NH3+]']):
+        J.append({'harness': 'hydrogens_numbering', 'params': {'smi': s}, 'budget_s': 600, 'validate_every': 50,
+                  'max_failures': 3})
     return J
